@@ -111,6 +111,11 @@ EXPRS = [
     "cycler(a, b).next()", "joiner(a)() ~ joiner(a)()", "namespace(x=a).x", "dict(k=a)", "lipsum(1)|length > 0",
     "range(2)|join(a)", "loop_stub|default(a)", "a|attr('upper')()", "[{'k': a}]|map(attribute='k')|join(b)",
     "[{'k': a}]|groupby('k')", "[{'k': a}]|selectattr('k')|list", "[a, b]|reject('none')|join(c)", "a|batch(3)|list",
+    "{'k': [a, b]}|xmlattr", "{'k': {'x': a}}|xmlattr", "{'k': (a, 1)}|xmlattr", "{'k': namespace(x=a)}|xmlattr", "{'k': [m, a]}|xmlattr",
+    "{'k': cycler(a, b)}|xmlattr", "[a, [b]]|join(c)", "[[a], m]|join(c)", "[a, b]|string", "[a, m]|string|upper", "[[a]]|first",
+    "([a]|list)|string|replace(b, c)", "{'k': [a]}|tojson", "[a, b]|center(40)", "[a]|indent(width=b)", "[a, b]|trim", "(a, b)|title",
+    "[a, b]|truncate(9, true, c)", "[a]|wordwrap(3, true, b)", "{'k': a}|string|urlize", "[m, a]|join", "[a, m]|join", "[m, a, m]|join(c)",
+    "[m, b]|join(', ')", "[b, m]|join(', ')", "[m, 1]|join('-')",
     "a|slice(2)|list", "a|e|truncate(5)", "a|e|center(20)", "a|e|indent(width=b)", "a|e|wordwrap(4)|replace(b, c)",
 ]
 
@@ -217,6 +222,35 @@ def run(ctx):
                                exp, got, of, "C15:filter-row:" + name)
         elif of:
             ctx.reject({"kind": "row", "filter": name, "variant": vi, "taints": list(taints)}, of, "C15:filter-row:" + name)
+        else:
+            ctx.validated()
+    # the same call shapes with NON-string carriers of the payload (list / tuple / dict / object with
+    # __str__ / str subclass) in every plain string position
+    for name, vi, spec, taints, carrier in R.carrier_cases(jinja2):
+        k = R.key(name, vi, taints, carrier)
+        o = R.observe(jinja2, name, spec, taints, env, tctx, carrier)
+        ctx.case(sample={"tie": "K-rows", "case": k, "result_is_markup": o["is_mk"], "flows": o["flows"], "emitted": o["emitted"][:80]}
+                 if name == "xmlattr" and carrier == "list" and len(ctx.samples) < 2 else None,
+                 key=("row", k) if o["error"] is None else None)
+        ctx.count("k_rows_carrier")
+        exp = R.EXPECTED_CARRIERS.get(k)
+        if o["error"] is not None:
+            got = ("error", o["error"])
+        else:
+            got = (o["is_mk"], "".join({"esc": "e", "raw": "r", "none": "n"}[f] for f in o["flows"]))
+            rows.append((k, taints, o["is_mk"], o["flows"], name))
+        of = None
+        if name not in R.EXPLICIT_OPT_OUT and o["error"] is None:
+            em = R.strip_documented(name, o["emitted"])
+            if "<payload" in o["emitted"].lower():
+                of = f"payload carried by a {carrier} reaches the output raw: {o['emitted'][:120]!r}"
+            elif not R.is_clean(em):
+                of = f"output of the filter result is not Clean: {o['emitted'][:120]!r}"
+        case = {"kind": "row", "filter": name, "variant": vi, "taints": list(taints), "carrier": carrier}
+        if exp is None or tuple(exp) != got:
+            ctx.model_mismatch("K-rows (carrier) " + name, case, exp, got, of, "C15:filter-row:" + name)
+        elif of:
+            ctx.reject(case, of, "C15:filter-row:" + name)
         else:
             ctx.validated()
     for name in sorted(set(R.SPECS) - set(FILTERS)):
@@ -433,7 +467,7 @@ def replay(ctx, data):
         return run(ctx)
     if case.get("kind") == "row":
         name, vi, taints = case["filter"], case["variant"], tuple(case["taints"])
-        o = R.observe(jinja2, name, R.SPECS[name][vi], taints)
+        o = R.observe(jinja2, name, R.SPECS[name][vi], taints, carrier=case.get("carrier"))
         print("observed:", o)
         em = R.strip_documented(name, o["emitted"])
         if "<payload" in o["emitted"].lower() or not R.is_clean(em):
